@@ -426,7 +426,7 @@ pub struct FsRun<'a> { pub ctx: &'a mut Ctx, pub focus: Focus }
 
 pub fn run(ctx: &mut Ctx, focus: Focus) {
     let cfgs = all_cfgs(ctx.tier_thorough);
-    let n_hist = match focus { Focus::C06 => ctx.n(100, 1200), _ => ctx.n(150, 3000) };
+    let n_hist = match focus { Focus::C06 => ctx.n(90, 1200), _ => ctx.n(120, 3000) };
     let mut rng = Rng::new(ctx.seed ^ (focus as u64) << 32);
     let mut drv = Drv::spawn();
     if drv.is_none() { ctx.out.count("driver-missing"); }
